@@ -1,0 +1,37 @@
+//go:build verif
+
+package keeper
+
+// Contracts for the deductive checker in /verif (comment-only; compiled only with -tags verif).
+// Abstract state (verif/specs/lib/60_kvstore.spec, 61_bank.spec): bank_supply, bank_bal, module_addr, kv,
+// distr_feepool(kv, multistore, storeKey) = the FeePool decoded from the FeePoolKey slot of that store.
+
+/*@
+// ---- C14: coins that gov / staking pools "burn" go to the community pool; all other burns are SDK burns
+func (BaseKeeper).BurnCoins
+    let redirected = moduleName == "gov" || moduleName == "bonded_tokens_pool" || moduleName == "not_bonded_tokens_pool"
+    let ms = ctx_multistore(ctx)
+    let pool = distr_feepool(kv, ms, k.distrStoreKey)
+    let src = module_addr(moduleName)
+    let dst = module_addr("distribution")
+    modifies bank_bal, bank_supply, kv
+    // redirected burn, success: supply untouched, coins moved to the distribution module account, community pool grows
+    ensures supply: redirected ==> bank_supply == old(bank_supply)
+    ensures moved: redirected && result == nil ==> bank_bal[src] == csub(old(bank_bal)[src], amounts)
+            && bank_bal[dst] == cadd(old(bank_bal)[dst], amounts)
+            && (forall a Addr :: a != src && a != dst ==> bank_bal[a] == old(bank_bal)[a])
+    ensures pool: redirected && result == nil ==> pool.CommunityPool == cadd(old(pool).CommunityPool, dcoins_of(amounts))
+    ensures covered: redirected && result == nil ==> cnonneg(amounts) && clte(amounts, old(bank_bal)[src])
+    // redirected burn, failure of the transfer: nothing is written after the failed step
+    ensures failed: redirected && result != nil ==> kv == old(kv)
+            && (forall a Addr :: a != src ==> bank_bal[a] == old(bank_bal)[a]) && clte(bank_bal[src], old(bank_bal)[src])
+    // every other module: exactly the SDK burn with the same arguments, the fee pool store is not touched
+    call BurnCoins requires same: bk == k.BaseKeeper && sctx == ctx && module == moduleName && amt == amounts && !redirected
+    call SendCoinsFromModuleToModule requires same: bk == k.BaseKeeper && sctx == ctx && senderModule == moduleName
+            && recipientModule == "distribution" && amt == amounts && redirected
+    ensures other: !redirected ==> kv == old(kv)
+    ensures burned: !redirected && result == nil ==> bank_supply == csub(old(bank_supply), amounts)
+            && bank_bal == bal_put(old(bank_bal), src, csub(old(bank_bal)[src], amounts))
+    ensures notburned: !redirected && result != nil ==> bank_supply == old(bank_supply)
+            && (forall a Addr :: a != src ==> bank_bal[a] == old(bank_bal)[a])
+@*/
